@@ -286,3 +286,32 @@ def multiplier_cut(slice_, timeout):
 def multiplier_cut__replay(slice_, cex):
     r = multiplier_cut(slice_, 0)
     return {'reproduced': r['state'] == 'counterexample', 'detail': r['detail']}
+
+
+# ---- digit literals of zh-cn / ja-jp through the public API (small-scope enumeration over layouts; not a solver verdict) -----------------------------
+def cjk_digit_layouts(slice_, timeout):
+    """comma-grouped integers with 1..5 groups, optional sign, optional decimals, half and full width: one number entity over the literal with that value"""
+    from recognizers_number import recognize_number
+    n, bad = 0, []
+    for groups in (['7'], ['12'], ['1', '234'], ['12', '345'], ['999', '999'], ['1', '234', '567'], ['12', '345', '678'], ['1', '000', '000'], ['1', '234', '567', '890'], ['1', '000', '000', '000', '000']):
+        for sign in ('', '-'):
+            for frac in ('', '.5', '.89'):
+                for plain in (False, True):
+                    body = ''.join(groups) if plain else ','.join(groups)
+                    text = sign + body + frac
+                    want = sign + ''.join(groups) + frac
+                    for carrier in ('%s', 'x %s y'):
+                        q = carrier % text
+                        rs = recognize_number(q, CULTURE)
+                        n += 1
+                        got = [(r.text, r.resolution.get('value')) for r in rs]
+                        if got != [(text, want)]:
+                            bad.append((q, got, want))
+    if bad:
+        return {'state': 'counterexample', 'cex': {'text': bad[0][0]}, 'detail': '%d digit literals not recognised as one number, first (query, got, expected value): %r' % (len(bad), bad[:4]), 'queries': n}
+    return {'state': 'discharged', 'detail': '%d literals (%s)' % (n, CULTURE), 'queries': n, 'sample': {'literals': n}}
+
+
+def cjk_digit_layouts__replay(slice_, cex):
+    r = cjk_digit_layouts(slice_, 0)
+    return {'reproduced': r['state'] == 'counterexample', 'detail': r['detail']}
